@@ -13,7 +13,11 @@ TITLE = "density clustering yields a well-formed partitioning forest"
 RULE = ("UnsupervisedOPF and KNNSupervisedOPF fitted on every point sequence over {0..3} "
         "(n=3..5) and {0,1,2}^2 (n=3..4), on a generic tie-free set, and (unsupervised) on every "
         "graph of G(4,3,zero)/G(5,2,zero) as a pre-computed matrix, for all 1 <= min_k <= max_k "
-        "<= n-1 and several metrics; the final forest is checked field by field (acyclic, one "
+        "<= n-1 and several metrics, each with the natural validation criterion AND with every k of "
+        "the range forced through the intercepted criterion; plus a squeezed-density family (5-7 "
+        "points given by every gap sequence over a small gap alphabet, ascending and descending, "
+        "and one extreme outlier that compresses all densities into a window of width < 1); the "
+        "final forest is checked field by field (acyclic, one "
         "root per sample, root/cluster/label fields, root cost = density, non-root cost = "
         "min(cost(pred), density) > density-1, predecessor was a k-NN graph neighbour - "
         "adjacency snapshotted at the last density estimate and again just before arcs are "
@@ -32,25 +36,35 @@ GENERIC = [(0.0, 0.0), (1.0, 0.3), (0.2, 2.1), (4.0, 1.1), (3.3, 5.2), (7.1, 2.4
 
 
 def bounds(tier):
-    return {"lattice": ["P(3..5,{0..3})", "P(3..4,{0,1,2}^2)"], "generic": "arrangements of 4(5) of 6 points",
+    return {"lattice": ["P(3..5,{0..3})", "P(3,{0,1,2}^2)" + (", P(4,{0,1,2}^2)" if tier == "thorough" else "")], "generic": "arrangements of 4(5) of 6 points",
             "pre_computed(unsupervised)": ["G(4,3,zero)", "G(5,2,zero)"],
-            "k_ranges": "all 1<=min_k<=max_k<=n-1", "metrics": METRICS[tier]}
+            "k_ranges": "all 1<=min_k<=max_k<=n-1; every k also forced via the scripted criterion",
+            "squeezed": "gap sequences over %s, 5..7 points + outlier, both orders, k forced 1..3" % GAPS[tier],
+            "metrics": METRICS[tier]}
+
+
+TIER = ["quick"]
 
 
 def plan(tier, seed):
+    TIER[0] = tier
     shards = []
     for mt in METRICS[tier]:
         for n in (3, 4, 5):
             for a, b in E.chunks(4 ** n, 32 if n == 5 else 64):
                 shards.append(("lat", "1d", n, mt, a, b))
         for n in (3, 4):
-            if n == 4 and tier == "quick" and mt != "euclidean":
-                continue
+            if n == 4 and tier == "quick":
+                continue  # P(4,{0,1,2}^2) is explored in the thorough tier
             for a, b in E.chunks(9 ** n, 120):
                 shards.append(("lat", "2d", n, mt, a, b))
         shards.append(("gen", 4, mt))
         if tier == "thorough":
             shards.append(("gen", 5, mt))
+    for m in (5, 6, 7):
+        tot = len(GAPS[tier]) ** (m - 1)
+        for a, b in E.chunks(tot, 40 if tier == "quick" else 200):
+            shards.append(("squeeze", m, tier, a, b))
     for a, b in E.chunks(729, 60):
         shards.append(("g", 4, 3, a, b))
     for a, b in E.chunks(1024, 64):
@@ -68,8 +82,43 @@ def k_ranges(n):
 
 
 def programs(shard, seed):
+    """natural criterion, plus every k of the range forced through the scripted criterion"""
+    for p in _programs(shard, seed):
+        yield p
+        lo = p.get("min_k", 1)
+        small = len(p["labels"]) <= 4 and shard[0] != "gen"
+        if shard[0] == "squeeze" or (p["max_k"] > lo and (small or TIER[0] == "thorough")):
+            for k in range(lo, p["max_k"] + 1):
+                q = dict(p)
+                q["force_k"] = k
+                yield q
+
+
+GAPS = {"quick": [0.2, 0.5, 0.8], "thorough": [0.2, 0.3, 0.5, 0.8, 1.1]}
+
+
+def _programs(shard, seed):
     import itertools
     kind = shard[0]
+    if kind == "squeeze":
+        # densities squeezed into a window of width < 1 by one extreme outlier: ordinary
+        # points = every gap sequence over a small gap alphabet, ascending and descending
+        _, m, tier, a, b = shard
+        gaps = GAPS[tier]
+        sc = [1.0, 0.5, 2.0, 1.5][seed % 4] if seed else 1.0
+        for gi in range(a, b):
+            gs = [gaps[i] for i in E.sequence_at(len(gaps), m - 1, gi)]
+            xs = [0.0]
+            for g_ in gs:
+                xs.append(round(xs[-1] + g_ * sc, 6))
+            for order in (xs, xs[::-1]):
+                X = [[x] for x in order] + [[2000.0 * sc]]
+                for lab in ([0] * m + [1], [i % 2 for i in range(m)] + [1]):
+                    yield {"model": "KNNSupervisedOPF", "mode": "features", "X": X, "metric": "euclidean",
+                           "labels": lab, "max_k": 3, "val": {"X": X, "labels": lab}}
+                yield {"model": "UnsupervisedOPF", "mode": "features", "X": X, "metric": "euclidean",
+                       "labels": [0] * m + [1], "min_k": 1, "max_k": 3}
+        return
     if kind == "lat":
         _, lk, n, metric, a, b = shard
         pts = E.lattice(lk, seed, positive=(metric == "canberra"))
@@ -107,6 +156,33 @@ def programs(shard, seed):
                        "labels": [i % 2 for i in range(n)], "min_k": mn, "max_k": mx}
 
 
+def force_k(prog):
+    """With prog["force_k"] = k the validation criterion is an intercepted environment answer
+    scripted so that training selects exactly that k (the forest must be well formed for
+    whichever k validation prefers)."""
+    import contextlib
+    k = prog.get("force_k")
+    if k is None:
+        return contextlib.nullcontext()
+    calls = [0]
+    if prog["model"] == "KNNSupervisedOPF":
+        import opfython.math.general as g
+
+        def acc(labels, preds):
+            calls[0] += 1
+            return 1.0 if calls[0] == k else 0.0
+
+        return seams.patched(g, "opf_accuracy", acc)
+    from opfython.models import UnsupervisedOPF
+    target = k - prog["min_k"] + 1
+
+    def cut(self, n_neighbours):
+        calls[0] += 1
+        return 0.5 if calls[0] == target else 1.0
+
+    return seams.patched(UnsupervisedOPF, "_normalized_cut", cut)
+
+
 def adj_snapshot(sg):
     return [[int(a) for a in nd.adjacency] for nd in sg.nodes]
 
@@ -115,7 +191,8 @@ def run_case(prog, res=None):
     from opfython.subgraphs import KNNSubgraph
     log = []
     try:
-        with seams.record_calls(KNNSubgraph, "calculate_pdf", log, adj_snapshot, "pdf"), \
+        with force_k(prog), \
+                seams.record_calls(KNNSubgraph, "calculate_pdf", log, adj_snapshot, "pdf"), \
                 seams.record_calls(KNNSubgraph, "destroy_arcs", log, adj_snapshot, "destroy"):
             m = K.fit_program(prog)
             if prog["model"] == "UnsupervisedOPF":
